@@ -49,6 +49,9 @@ func genC12(seed uint64, tier string) C12Cfg {
 	for i := 1; i <= n; i++ {
 		ids = append(ids, uint16(i))
 	}
+	if prng.Derive(seed, "wide-ids").Bool(0.25) {
+		ids = wideIDs(prng.Derive(seed, "wide-ids/draw"), n)
+	}
 	c := C12Cfg{N: n, Strategy: pickStr(r, netsim.Strategies), Serial: true, DeadlineMs: 4000 + r.Intn(6000)}
 	thr := n - 1
 	if n >= 3 && r.Bool(0.5) {
@@ -234,7 +237,20 @@ func runC12(t *testing.T, spec RunSpec) *RunResult {
 						honest = append(honest, id)
 					}
 				}
-				outs = append(outs, 900)
+				unknown := uint16(900) // an id that is not in the membership at all
+				for {
+					clash := false
+					for _, id := range cfg.Deploy.IDs {
+						if id == unknown {
+							clash = true
+						}
+					}
+					if !clash {
+						break
+					}
+					unknown++
+				}
+				outs = append(outs, unknown)
 				topics := map[string]bool{string(sha([]byte("DKG"))): true}
 				for _, tp := range ph.Topics {
 					topics[string(sha([]byte(tp)))] = true
